@@ -136,6 +136,21 @@ Theorem C15_array_routing_checked : array_routing_ok array_routing = true.
 Proof. vm_compute. reflexivity. Qed.
 Print Assumptions C15_array_routing_checked.
 
+(* CHECK_FINITE FORWARDING.  Every validation call site of the wrappers (_register.inner, 1-D and 2-D, both
+   the branch for objects with x-values and the one without), the constructors, the _setup_* methods and
+   the registered methods passes check_finite=self._check_finite on (fail-closed: a call without it, or
+   an inlined replacement, fails the check). *)
+Theorem C15_check_finite_forwarded : forall t : list centry,
+  finite_routing_ok t = true ->
+  (forall e, In e t -> c_forwarded e = true) /\
+  (forall td fn n, In (td, fn, n) finite_required -> (n <= count_sites td fn t)%nat).
+Proof. exact finite_routing_sound. Qed.
+Print Assumptions C15_check_finite_forwarded.
+
+Theorem C15_finite_routing_checked : finite_routing_ok finite_routing = true.
+Proof. vm_compute. reflexivity. Qed.
+Print Assumptions C15_finite_routing_checked.
+
 Example C15_routing_hypotheses_nonvacuous :
   regular (Sc (Int 0)) = true /\ must_reject DPos false (Sc (Int 0)) = true.
 Proof. exact regular_bad_value. Qed.
